@@ -94,6 +94,7 @@ type Path struct {
 	RecvHook     func(fr *frame, ch *Chan, elem types.Type) (Value, bool)
 	MapOrderHook func(fr *frame, es []*mapEntry) []*mapEntry
 	LockHook     func(fr *frame, mu *Value, op string)
+	ClockHook    func(fr *frame) Value
 
 	state map[string]interface{} // scratch for intrinsics (hash states, id counters…)
 }
@@ -136,6 +137,10 @@ func (p *Path) feasible(c *sym.Term) bool {
 	}
 	p.sync()
 	r, m := p.sol.Check(c)
+	if p.sol.Restarted {
+		p.sol.Restarted = false
+		p.pcSent = 0
+	}
 	if r == solver.Unknown && p.sol2 != nil {
 		if !p.sol2Used {
 			p.sol2.Reset()
@@ -147,6 +152,10 @@ func (p *Path) feasible(c *sym.Term) bool {
 			p.pcSent2++
 		}
 		r, m = p.sol2.Check(c)
+		if p.sol2.Restarted {
+			p.sol2.Restarted = false
+			p.pcSent2 = 0
+		}
 		p.ex.addFallback()
 	}
 	switch r {
@@ -369,10 +378,17 @@ func (p *Path) Check(c *sym.Term, label string, fr *frame) {
 	if c.IsFalse() || p.feasible(sym.Not(c)) {
 		var m map[string]uint64
 		if c.IsFalse() {
-			if !p.feasible(sym.True) {
-				panic(pathEnd{"infeasible"})
+			// the path condition is feasible by construction; a model is only needed to print inputs
+			if p.model != nil {
+				m = p.model
+			} else if p.ex.wantModel(label) {
+				if !p.feasible(sym.True) {
+					panic(pathEnd{"infeasible"})
+				}
+				m = p.model
+			} else {
+				m = map[string]uint64{}
 			}
-			m = p.model
 		} else {
 			m = p.lastModel
 		}
@@ -470,6 +486,7 @@ type Explorer struct {
 	Stats            solver.Stats
 	Exhaustive       bool
 	Fallbacks        int
+	modelCount       map[string]int
 	Solver2          string
 	Timeout2         int
 	Wall             time.Duration
@@ -488,6 +505,17 @@ func (ex *Explorer) addTransitions(n int) {
 	ex.mu.Lock()
 	ex.transitions += int64(n)
 	ex.mu.Unlock()
+}
+
+// wantModel: full input models are computed for the first few violations of each label only.
+func (ex *Explorer) wantModel(label string) bool {
+	ex.mu.Lock()
+	defer ex.mu.Unlock()
+	if ex.modelCount == nil {
+		ex.modelCount = map[string]int{}
+	}
+	ex.modelCount[label]++
+	return ex.modelCount[label] <= 8
 }
 
 func (ex *Explorer) addFallback() {
@@ -714,6 +742,17 @@ func (ex *Explorer) runPath(sol, sol2 *solver.Solver, prefix []int64) (res PathR
 		default:
 			res.Outcome = "inconclusive"
 			res.Reason = fmt.Sprintf("ENGINE CRASH: %v\n%s", r, debug.Stack())
+		}
+		if res.Outcome == "inconclusive" {
+			var cs []string
+			for _, in := range p.inputs {
+				if in.Kind == "choice" {
+					cs = append(cs, fmt.Sprintf("%s=%d", in.Name, in.Len))
+				}
+			}
+			if len(cs) > 0 {
+				res.Reason += " [choices: " + strings.Join(cs, " ") + "]"
+			}
 		}
 		if res.Outcome == "ok" && p.model != nil {
 			res.Inputs = p.concreteInputs(p.model)
